@@ -1,5 +1,5 @@
 (* C05 — recency order is exact: accesses promote, observations do not. *)
-Require Import LruV.A.OrderA.
+Require Import LruV.A.OrderA LruV.B.OpsProps.
 
 (* For EVERY operation, state and oracle: the keys after the step are the surviving old keys in their
    old relative order, followed by the promoted key, where `promoted` says exactly which operations
@@ -30,6 +30,27 @@ Theorem C05_peeks : forall E VS s o,
   stepA E VS fixed s DebugFmt o = Some (s, OItems (map (fun e => Some (kv e)) (ents s)), ev0).
 Proof. intros. repeat split. Qed.
 
+(* pointer level (Layer B): the list surgery the operations are made of acts on the abstract entry list
+   (absl: entries of the nodes, least-recently-used first) exactly as the list operations of the model:
+   touch_ptr moves the entry to the MRU end, removal deletes it, insertion appends, reallocation — for any
+   table iteration order — changes nothing *)
+Theorem C05_touch_pointer : forall g a g' l1 l2 e, RI (gh g) (gseal g) (glist g) -> b_touch g a = Some g' ->
+  glist g = l1 ++ a :: l2 -> ~ In a l1 -> entry_at (gh g) a = Some e ->
+  absl (gh g) (glist g) = absl (gh g) l2 ++ [e] ++ absl (gh g) l1 /\
+  absl (gh g') (glist g') = absl (gh g) l2 ++ absl (gh g) l1 ++ [e].
+Proof. exact b_touch_abs. Qed.
+Theorem C05_remove_pointer : forall g a g' l1 l2, RI (gh g) (gseal g) (glist g) -> b_remove g a = Some g' ->
+  glist g = l1 ++ a :: l2 -> ~ In a l1 -> ~ In a l2 -> absl (gh g') (glist g') = absl (gh g) l2 ++ absl (gh g) l1.
+Proof. exact b_remove_abs. Qed.
+Theorem C05_insert_pointer : forall g a sz k v g', RI (gh g) (gseal g) (glist g) -> ~ In a (gseal g :: glist g) ->
+  b_insert_new g a sz (PLive k v) = Some g' -> absl (gh g') (glist g') = absl (gh g) (glist g) ++ [{| ek := k; ev := v; es := sz |}].
+Proof. exact b_insert_new_abs. Qed.
+Theorem C05_realloc_pointer : forall todo h seal l fresh, RI h seal l -> NoDup todo -> (forall a, In a todo -> In a l) ->
+  (forall b, In b (seal :: l) -> b < fresh) ->
+  exists h', moves h todo fresh = Some h' /\ RI h' seal (rename_all todo fresh l) /\
+             absl h' (rename_all todo fresh l) = absl h l /\ (forall a, In a todo -> h' a = None).
+Proof. exact realloc_RI. Qed.
+
 Example C05_example :
   let o := {| o_tomb := 0; o_reuse := false; o_alloc := true |} in
   let mk i := {| ek := {| kid := i; ktok := i; kheap := 0 |}; ev := {| vtok := 100 + i; vtag := i; vheap := 0 |}; es := 72 |} in
@@ -41,3 +62,7 @@ Proof. cbv zeta. eexists _, _, _, _, _, _. repeat split; vm_compute; reflexivity
 Print Assumptions C05_order.
 Print Assumptions C05_observers.
 Print Assumptions C05_peeks.
+Print Assumptions C05_touch_pointer.
+Print Assumptions C05_remove_pointer.
+Print Assumptions C05_insert_pointer.
+Print Assumptions C05_realloc_pointer.
